@@ -454,7 +454,7 @@ O(id='oer_open_type_get', props=['C14', 'C18', 'C04'], kind='bounded', entry='h_
 O(id='uper_open_type_put.leak', props=['C14', 'C07'], kind='bounded', entry='h_uper_open_type_put', harness='harness/h_per_opentype.c',
   units=[SK + 'per_opentype.c', SK + 'per_encoder.c'], functions=['uper_open_type_put', 'uper_encode_to_new_buffer', 'encode_dyn_cb'],
   fp_restrict=[(r'uper_encoder\)$', ['stub_uper']), (r'\.output\)$', ['vf_cb', 'encode_dyn_cb', 'ignore_output'])],
-  unwind=8, cbmc=['--unwindset', 'asn_put_few_bits:3,asn_put_many_bits.0:3', '--malloc-may-fail', '--malloc-fail-null', '--memory-leak-check'],
+  stubs=['stubs/realloc64.c', 'stubs/memcpy16.c'], unwind=8, cbmc=['--unwindset', 'asn_put_few_bits:3,asn_put_many_bits.0:3,realloc.0:66,memcpy.0:18', '--malloc-may-fail', '--malloc-fail-null', '--memory-leak-check'],
   bound='an open type whose contents are 0..8 bits, written at the end of the 32-octet scratch space; callback may fail at any call; every allocation may fail',
   min_props=50, timeout=900, tier='experimental')
 
@@ -507,13 +507,14 @@ SQO = dict(harness='harness/h_seq_oer.c', units=[SK + 'constr_SEQUENCE_oer.c', S
            link=[SK + 'constr_SEQUENCE.c', SK + 'asn_bit_data.c', SK + 'oer_support.c', SK + 'oer_decoder.c'],
            fp_restrict=[(r'oer_decoder\)$', ['sv_oer']), (r'free_struct\)$', ['sv_free'])], trusted=[STUBM, 'stubs/memcpy16.c replaces the CBMC memcpy model'], stubs=['stubs/memcpy16.c'])
 for _e, _n, _u in ((0, 8, 11), (1, 10, 13), (2, 11, 14)):
+    _sq = SQO if _e == 0 else dict(SQO, stubs=['stubs/memcpy16.c', 'stubs/calloc_fixed96.c'], trusted=[STUBM, 'stubs/memcpy16.c', 'stubs/calloc_fixed96.c: every calloc block is 96 bytes (writes into the slack past the requested size are not detected here)'])
     _bd = 'SEQUENCE { a, b OPTIONAL, c%s } of stub members; every input of at most %d octets%s' % (', ..., d' if _e else '', _n, ' whose extension-addition bitmap is one octet' if _e == 1 else ' with the fixed frame: extension bit set, b absent, bitmap of 2 bits (d, and one addition unknown here)' if _e == 2 else '')
     O(id='SEQUENCE_decode_oer.e%d' % _e, props=['C04', 'C14', 'C03'], kind='bounded', tier='experimental' if _e else 'quick', entry='h_SEQUENCE_decode_oer', functions=['SEQUENCE_decode_oer', 'SEQUENCE_free', 'asn_bit_data_new_contiguous', 'asn_get_few_bits', 'oer_open_type_get', 'oer_open_type_skip', 'oer_fetch_length'],
-      defines=['VF_EXT=%d' % _e, 'VF_N=%d' % _n], unwind=_u, cbmc=['--unwindset', 'asn_get_few_bits:3,memcpy.0:18', '--malloc-may-fail', '--malloc-fail-null', '--memory-leak-check'],
-      bound=_bd + ' in an exact-size heap buffer; every allocation may fail', min_props=80, timeout=1500, mem_gb=30, **SQO)
+      defines=['VF_EXT=%d' % _e, 'VF_N=%d' % _n], unwind=_u, cbmc=['--unwindset', 'asn_get_few_bits:3,memcpy.0:18' + (',calloc.0:98' if _e else ''), '--malloc-may-fail', '--malloc-fail-null', '--memory-leak-check'],
+      bound=_bd + ' in an exact-size heap buffer; every allocation may fail', min_props=80, timeout=1500, mem_gb=30, **_sq)
     O(id='SEQUENCE_decode_oer.chunk2.e%d' % _e, props=['C05'], kind='bounded', tier='experimental' if _e else 'quick', entry='h_SEQUENCE_decode_oer_chunked', functions=['SEQUENCE_decode_oer', 'asn_get_few_bits', 'asn_get_undo', 'oer_open_type_get', 'oer_open_type_skip'],
-      defines=['VF_EXT=%d' % _e, 'VF_N=%d' % _n], unwind=_u, cbmc=['--unwindset', 'asn_get_few_bits:3,memcpy.0:18', '--no-malloc-may-fail'],
-      bound=_bd + '; every split point k (two chunks)', min_props=80, timeout=1500, mem_gb=30, **SQO)
+      defines=['VF_EXT=%d' % _e, 'VF_N=%d' % _n], unwind=_u, cbmc=['--unwindset', 'asn_get_few_bits:3,memcpy.0:18' + (',calloc.0:98' if _e else ''), '--no-malloc-may-fail'],
+      bound=_bd + '; every split point k (two chunks)', min_props=80, timeout=1500, mem_gb=30, **_sq)
 
 SFO = dict(harness='harness/h_setof_oer.c', units=[SK + 'constr_SET_OF_oer.c', SK + 'constr_SET_OF.c', SK + 'asn_SET_OF.c'],
            link=[SK + 'constr_SET_OF.c', SK + 'asn_SET_OF.c', SK + 'oer_support.c'],
@@ -709,6 +710,12 @@ O(id='SET_encode_der', props=['C02', 'C06', 'C07', 'C14'], kind='bounded', entry
   unwind=14, cbmc=['--unwindset', 'qsort.0:66', '--malloc-may-fail', '--malloc-fail-null', '--memory-leak-check'],
   bound='SET { a [2], b [0] OPTIONAL, c untagged CHOICE ([1] or [3]) } of stub members: every value and presence combination, every callback failure point, every allocation may fail',
   trusted=['member types are harness stubs', 'stubs/qsort_gen.c'], min_props=60, timeout=900)
+
+O(id='uper_open_type_skip.b5', props=['C03', 'C04'], kind='bounded', tier='experimental', entry='h_uper_open_type_skip', harness='harness/h_per_opentype.c',
+  units=[SK + 'per_opentype.c'], functions=['uper_open_type_skip', 'uper_open_type_get_simple', 'uper_sot_suck', 'uper_get_length', 'per_get_many_bits'],
+  fp_restrict=[(r'uper_decoder\)$', ['uper_sot_suck']), (r'\.output\)$', ['vf_cb', 'encode_dyn_cb', 'ignore_output'])],
+  stubs=['stubs/realloc64.c', 'stubs/memcpy16.c'], unwind=10, cbmc=['--unwindset', 'asn_get_few_bits:4,realloc.0:66,memcpy.0:18', '--no-malloc-may-fail'],
+  bound='open types of 0..5 octets with arbitrary contents at every bit offset 0..7', trusted=['stubs/realloc64.c, stubs/memcpy16.c'], min_props=50, timeout=900)
 
 for _o in OBLIGATIONS:
     if _o.get('enforce') and _o.get('kind') in ('enforce', 'width') and _o.get('tier') == 'quick' and 'C19' not in _o['props']:
